@@ -321,8 +321,12 @@ def decodeUgridWith (cfg : Cfg) (fl : Flavor) (bs : Bytes) : Except Status UMesh
 def ugridCfgLegacy : Cfg := Cfg.faithful
 
 /-- **model selection**: the readers as they are in /repo today (since 6682479): `1 ≤ index ≤ nnode` required per
-    connectivity entry, serial and parallel -/
-def ugridCfg : Cfg := { Cfg.faithful with checkIndex := true }
+    connectivity entry, serial and parallel (6682479); the parallel reader tests its seven counts against the file size
+    right after the header (10247dc; `Cfg.checkCount`) -/
+def ugridCfg : Cfg := { Cfg.faithful with checkIndex := true, checkCount := true }
+
+/-- the readers between 6682479 and 10247dc: index check, no count check in the parallel reader -/
+def ugridCfgNoCount : Cfg := { Cfg.faithful with checkIndex := true }
 
 def decodeUgrid (fl : Flavor) (bs : Bytes) : Except Status UMesh := decodeUgridWith ugridCfg fl bs
 
@@ -527,6 +531,11 @@ def partReadWith (cfg : Cfg) (fl : Flavor) (np : Nat) (chunkOverride : Option Na
   | .error e => .error e
   | .ok (hdr, s) =>
   let nnode := hdr.getD 0 0
+  -- 10247dc: `RAS(<every count ≥ 0 and its section fits in the file>, "ugrid count exceeds file")` → REF_FAILURE, on
+  -- rank 0 right after the seven header reads (expression regenerated into `UgridOffsets.counts_fit`)
+  if cfg.checkCount ∧ UgridOffsets.has_count_check ∧
+      ¬ UgridOffsets.counts_fit (bs.length : Int) (UgridOffsets.ibyte fl.fat) (hdr.getD 0 0) (hdr.getD 1 0) (hdr.getD 2 0)
+        (hdr.getD 3 0) (hdr.getD 4 0) (hdr.getD 5 0) (hdr.getD 6 0) then .error .failure else
   if partHeaderHazard np hdr then .error .undefined else
   -- ref_part_node: `ref_part_first(nnode, np, part)` nodes per rank, every `fread` checked; a count ≤ 0 reads nothing
   match rdVerts fl nnode.toNat s with
